@@ -314,8 +314,10 @@ def check_property(pid, tier, seed, extra=None):
     extra = prop.get("post_evidence")
     if extra:
         extra(ev, results)
-    os.makedirs(os.path.join(ROOT, "evidence"), exist_ok=True)
-    json.dump(ev, open(os.path.join(ROOT, "evidence", pid + ".json"), "w"), indent=1, default=str)
+    # VERIF_EVIDENCE_DIR: developer pre-screening of a seeded change against a scratch copy must not overwrite the real evidence
+    evdir = os.environ.get("VERIF_EVIDENCE_DIR") or os.path.join(ROOT, "evidence")
+    os.makedirs(evdir, exist_ok=True)
+    json.dump(ev, open(os.path.join(evdir, pid + ".json"), "w"), indent=1, default=str)
     print("%s property=%s tier=%s harnesses=%d confirmed=%d inconclusive=%d known=%d violations=%d mismatches=%d paths=%d wall=%.0fs"
           % ("OK" if rc == 0 else "FAIL", pid, tier, len(hs) + len([r for r in extra_results if r.get("verdict") != "info"]), len(confirmed), len(inconclusive), len(known_lines),
              len(violations), len(mismatches), total_paths, time.time() - t_start))
